@@ -8,10 +8,46 @@ TECH = 'Lean 4 theorems about a hand-written carrier-polymorphic model + differe
 CLAIMED = {k: (v['sec'], v['text'], v.get('tech', TECH)) for k, v in json.load(open(os.path.join(HERE, 'tools', 'claims.json'))).items()}
 NOT_YET = {}
 
+def tie_info(pid):
+    """(number of tie theorems, translated functions) when the property has a source tie (lean/Props/<pid>Src.lean)"""
+    import re, ast
+    pth = os.path.join(HERE, 'lean', 'Props', pid + 'Src.lean')
+    if not os.path.exists(pth):
+        return None
+    src = re.sub(r'/-.*?-/', ' ', open(pth).read(), flags=re.S)
+    nthm = len(re.findall(r'^theorem\s+\S+', src, re.M))
+    funcs = []
+    gen = os.path.join(HERE, 'lean', 'TaurexModel', 'Gen', 'Src%s.lean' % pid)
+    if os.path.exists(gen):
+        funcs = re.findall(r'translated from (\S+?):\d+ `([^`]+)`', open(gen).read())
+    seen = []
+    for m, f in funcs:
+        t = '%s:%s' % (m.replace('taurex/', ''), f)
+        if t not in seen:
+            seen.append(t)
+    return nthm, seen
+
+
+TIE_TECH = ('Lean 4 theorems about a carrier-polymorphic model + source tie (kernels regenerated from the Python source by '
+            'harness/translate.py on every run and proved equal to the model) + differential correspondence check against /repo')
+
+
 def main():
     checks = []
     for pid in sorted(CLAIMED):
         sec, text, tech = CLAIMED[pid]
+        ti = tie_info(pid)
+        note_tie = ''
+        if ti:
+            nthm, funcs = ti
+            text = text + (' Source tie: %d further theorems (Props/%sSrc.lean) prove that the definitions regenerated on every '
+                           'run from the source text of %s equal the model functions above; a source change that alters one of '
+                           'them breaks its theorem.' % (nthm, pid, ', '.join(funcs[:14]) + (' …' if len(funcs) > 14 else '')))
+            if tech == TECH:
+                tech = TIE_TECH
+            note_tie = (' For the functions of the source tie the model is additionally proved equal to definitions regenerated '
+                        'from the source text on every run (DESIGN.md 2.6); there the translator harness/translate*.py is the '
+                        'trusted part.')
         checks.append(dict(
             property_id=pid,
             quick_cmd='./check %s --tier quick' % pid,
@@ -24,7 +60,7 @@ def main():
                        'each run with #print axioms; no sorry/native_decide/bv_decide/own axioms). The model is '
                        'hand-written and tied to /repo only by the correspondence check of this property (differential '
                        'testing on generated inputs); Float rounding is not modelled; external numpy/scipy calls are '
-                       'assumed as listed in DESIGN.md 2.3.',
+                       'assumed as listed in DESIGN.md 2.3.' + note_tie,
             technique=tech))
     na = [dict(property_id=p, reason=NOT_YET.get(p, 'check not built yet in this round (planned at level proof, see DESIGN.md section 7)'))
           for p in sorted(TITLES) if p not in CLAIMED]
